@@ -38,6 +38,14 @@ Definition kobj (o : aobj) : obj :=
 Definition kinded (g : agraph) : graph :=
   map (fun t => T (knode (a_s t)) (a_p t) (kobj (a_o t))) g.
 
+(** what rdflib holds for an abstract literal: lexical form, datatype, language *)
+Definition rlit_of (lex : str) (k : lkind) : rlit :=
+  match k with
+  | LPlain => RL lex None None
+  | LTyped dt => RL lex (Some dt) None
+  | LLang tag => RL lex None (Some tag)
+  end.
+
 (** ** renderings (no escapes: the domain predicates exclude what would need one) *)
 
 Definition TAB : ascii := ascii_of_nat 9.
@@ -169,11 +177,11 @@ Definition accepted (fmt : str) (cm : option str) (k : skind) : Prop :=
 
 Definition rdflib_formats : list str := [Str "n3"; Str "turtle"; Str "xml"; Str "json-ld"; Str "nt"].
 
-(** combinations outside the dispatch theorem (each one a recorded finding):
-    zip with a source that is not a file path; a URL with a format rdflib's
-    parser plug-ins do not know *)
+(** combinations outside the dispatch theorem (a recorded finding): a URL
+    with a format rdflib's parser plug-ins do not know.  (A compression mode
+    given with a raw string or an rdflib graph has nothing to decompress and
+    is ignored.) *)
 Definition dispatch_dom (fmt : str) (cm : option str) (k : skind) : bool :=
-  negb (opt_str_eqb cm (Str "zip") && match k with KFile | KFiles _ => false | _ => true end) &&
   negb (is_url k && negb (mem_str fmt rdflib_formats)).
 
 (** the class [get_triple_yielder] is documented to return *)
